@@ -2,6 +2,7 @@ import AdeuModel.Model.History
 import AdeuModel.Lemmas.Engine
 import AdeuModel.Lemmas.Review
 import AdeuModel.Lemmas.History
+import AdeuModel.Lemmas.AttrHistory
 /-
 C07 — multi-round negotiation keeps the document consistent.
 
@@ -71,6 +72,14 @@ theorem C07_history_frame (d : Document) (steps : List Step) :
     d.comments <+: (runHistory d steps).1.comments ∧ d.commentsEx <+: (runHistory d steps).1.commentsEx :=
   let g := DocGrows_runHistory steps d
   ⟨g.skel.body, g.skel.headers, g.skel.footers, g.comments, g.commentsEx⟩
+
+/-- Over any history: every revision mark in the final document is a mark of the original document (unchanged id,
+author, date) or was created in one of the edit rounds — it carries that round's author and the session date.
+Review rounds, replies and accept-all add no marks and re-label none. -/
+theorem C07_marks_over_history (d : Document) (steps : List Step) :
+    ∀ x ∈ revsDoc (runHistory d steps).1,
+      x ∈ revsDoc d ∨ (x.date = some sessionDate ∧ ∃ a ∈ roundAuthors steps, x.author = some a) :=
+  marks_over_history steps d
 
 /-- the reached documents: one more than the number of steps, starting with the input -/
 theorem C07_reached_length (d : Document) (steps : List Step) :
